@@ -59,7 +59,7 @@ pub fn replay_hx_violation(cfg: &HxCfg, v: &Violation) -> Result<bool, String> {
     let fs = rerun_hx(&c, &v.history, &v.at, v.aux.as_ref())?;
     if v.kind.starts_with("continuation-differs-after-") {
         // differential kind: the history diverges at its last step, and the history without the swaps does not
-        let is_swap = |o: &Op| if v.kind.ends_with("reload") { matches!(o, Op::ReloadSwap) } else { matches!(o, Op::CloneSwap) };
+        let is_swap = |o: &Op| if v.kind.ends_with("reload") { matches!(o, Op::ReloadSwap) } else { matches!(o, Op::CloneSwap | Op::CloneFromSwap) };
         let stripped: Vec<Op> = v.history.iter().copied().filter(|o| !is_swap(o)).collect();
         return Ok(!fs.is_empty() && hx::history_follows_model(&c, &stripped));
     }
@@ -144,7 +144,7 @@ pub fn replay_file(path: &str) -> i32 {
                         println!("  observed [{}] tags {:?}: {}", f.kind, f.tags, f.detail);
                     }
                     let differential = kind.starts_with("continuation-differs-after-") && !fs.is_empty() && {
-                        let is_swap = |o: &Op| if kind.ends_with("reload") { matches!(o, Op::ReloadSwap) } else { matches!(o, Op::CloneSwap) };
+                        let is_swap = |o: &Op| if kind.ends_with("reload") { matches!(o, Op::ReloadSwap) } else { matches!(o, Op::CloneSwap | Op::CloneFromSwap) };
                         let stripped: Vec<Op> = history.iter().copied().filter(|o| !is_swap(o)).collect();
                         hx::history_follows_model(&cfg, &stripped)
                     };
